@@ -5,6 +5,7 @@ from .isomsg import *
 from .c01 import family_pairs, class_mixes, GENERIC, check_codecs
 
 PROPERTY = 'C02'
+DEBUG_LOG = ['single/dec/latin_1/bin', 'single/enc/latin_1/bin']      # obligations that are also explored with debug logging switched on
 PYTHON_O = ['single/enc/latin_1/bin', 'single/dec/latin_1/bin']      # obligations that are also explored with the modules compiled as under python -O
 ASSUMPTIONS = [
     'element subsets concrete from a family (every single element, pairs, class mixes); lengths / numeric values / content symbolic',
